@@ -9,4 +9,4 @@ mkdir -p $V/.cache/go-build
 if [ ! -x $V/bin/gosmt ] || [ -n "$(find $V/engine -name '*.go' -newer $V/bin/gosmt 2>/dev/null | head -1)" ]; then
   (cd $V/engine && go build -o $V/bin/gosmt .) || { echo "ENGINE-INCONCLUSIVE property=$ID: engine build failed"; exit 2; }
 fi
-exec $V/bin/gosmt check -prop "$ID" -tier "$TIER" -repo /repo -verif $V ${VERIF_VERBOSE:+-v $VERIF_VERBOSE}
+exec $V/bin/gosmt check -prop "$ID" -tier "$TIER" -repo "${VERIF_REPO:-/repo}" -verif $V ${VERIF_VERBOSE:+-v $VERIF_VERBOSE}
